@@ -299,9 +299,9 @@ func ruleIndexSites(r *rep.Report, p *load.Program, rl *roles.Roles) {
 // indexAssumptions: functions whose remaining non-constant index sites rest on a length guard established elsewhere or on a
 // data invariant of the arithmetic (DESIGN section 4 P). One line of reason each; a function not listed here may have none.
 var indexAssumptions = map[string]string{
-	"role:batch-verifier": "entry accesses use offset+i (rule B1) with i < batchSize <= remaining and offset+remaining = n = len of all three inputs (rule B0 + the argument-count guard); scratch slots are below heapBatchSize = 2*maxBatchSize+1 because batchSize <= maxBatchSize (rules B0, A); the fail closure is only ever called with the entry index (rule B1)",
-	"role:bos-coster":     "Bos-Coster heap and multi-scalar loop (every root-package function reachable from the multi-scalar routine): indices are heap positions below heap.size <= count <= heapBatchSize, parents are (node-1)/2 >= 0 under Go's truncating division, the heap always holds at least three entries (count >= 9 is odd; rule E-heap-seed), limbSize decreases only while the top limb of the non-zero maximum is zero, the surviving scalar is non-zero and at most 128 bits (data-dependent loop invariants of the arithmetic, not re-derived)",
-	"role:scMin":          "order[i] with i = 3,2,1,0: the loop returns at i == 0 before decrementing; engine F evaluates the function on every class without an out-of-range index",
+	"role:batch-verifier":                        "entry accesses use offset+i (rule B1) with i < batchSize <= remaining and offset+remaining = n = len of all three inputs (rule B0 + the argument-count guard); scratch slots are below heapBatchSize = 2*maxBatchSize+1 because batchSize <= maxBatchSize (rules B0, A); the fail closure is only ever called with the entry index (rule B1)",
+	"role:bos-coster":                            "Bos-Coster heap and multi-scalar loop (every root-package function reachable from the multi-scalar routine): indices are heap positions below heap.size <= count <= heapBatchSize, parents are (node-1)/2 >= 0 under Go's truncating division, the heap always holds at least three entries (count >= 9 is odd; rule E-heap-seed), limbSize decreases only while the top limb of the non-zero maximum is zero, the surviving scalar is non-zero and at most 128 bits (data-dependent loop invariants of the arithmetic, not re-derived)",
+	"role:scMin":                                 "order[i] with i = 3,2,1,0: the loop returns at i == 0 before decrementing; engine F evaluates the function on every class without an out-of-range index",
 	"internal/curve25519.Contract":               "write51Full is only called with n = 0..3 (constants) and idx advances by 8 from 0 to 24; evaluated concretely by engine R (Pack / IsNeutralVartime jobs) without an out-of-range index",
 	"internal/ge25519.DoubleScalarmultVartime":   "pre1[|d|/2] and nielsSlidingMultiples[|d|/2] rest on the digit magnitudes of the sliding-window recoding (|d| <= 15 resp. <= 63); slide[i] is scanned for i from 255 down to 0 (data invariant of the recoding)",
 	"internal/ge25519.scalarmultBaseChooseNiels": "table[pos*8+i] with i < 8 and pos = digit index / 2 <= 31; engine E evaluates all 32 positions without an out-of-range index",
